@@ -216,7 +216,11 @@ func (tr *fnTrans) instr(b *ssa.BasicBlock, in ssa.Instruction) {
 		x := tr.val(in.X)
 		s := tr.sortOfV(in)
 		if x.T != nil && s.Name != x.T.Name {
-			tr.errorf("changeinterface between different sorts %s -> %s in %s", x.T.Name, s.Name, tr.key)
+			// widening into an opaque interface sort (error -> any): boxed like a concrete value; nil stays nil
+			tag := sanitize(x.T.Name)
+			tr.v.declareBox(s, x.T, tag)
+			tr.setVal(in, s, fmt.Sprintf("(ite (= %s %s) %s (box_%s_%s %s))", x.S, zeroOf(x.T), zeroOf(s), s.Name, tag, x.S))
+			return
 		}
 		tr.vals[in] = T(x.S, s)
 	case *ssa.Convert:
